@@ -12,14 +12,18 @@
   dropped outside) the window.  Every line-ending style, tab width ≥ 1 and
   character widths; unbounded in the text.
 
-  Known defect F13c (reproduced by the model, see `C20_finding_F13c`): when the
-  window starts in the middle of a line, `previous_position` (stepping back over
-  a tab, or back over a line ending onto the window's first line) re-measures the
-  column from 0 instead of from the window's start column, so it and
-  `previous_line_end_position` can report a wrong *column*.  These two fields are
-  therefore proved only for windows that start at column 0
-  (`C20_window_prev_partial`, `C20_window_prevLineEnd_partial`); the unrestricted
-  statement `C20_window_prev_statement` is refuted (`C20_window_prev_statement_false`).
+  `previous_position` and `previous_line_end_position` (`C20_window_prev`,
+  `C20_window_prevLineEnd`) are likewise the parent's answers, kept when they lie
+  inside the window and `none` otherwise (in particular `none` at the window's
+  start), for EVERY window — also one that starts in the middle of a line, after a
+  tab.  Before the repair commit ef86ab4 (former finding F13c) a window starting
+  mid-line re-measured the column of such an answer from 0 instead of from the
+  window's start column, and these two statements held only for windows starting at
+  column 0; the code now re-measures an answer on the window's first line from the
+  window's start position, and the statements are full (`C20_window_prev_statement`
+  is proved, `C20_window_prev_statement_holds`).  The former witness now agrees with
+  the parent: `C20_former_F13c_witness`.  The column-0 corollaries are kept under
+  their old names `C20_window_prev_partial`, `C20_window_prevLineEnd_partial`.
 
   Lean: `Fam.Window.model` (the observation the differential driver compares)
   against `Fam.Window.ofSpec (Spec.windowSpec …)`, field by field.  The window is
@@ -151,33 +155,69 @@ variable (m : Metrics) (_htab : 1 ≤ m.tab) (wa pre' suf' wz : Text)
   (sub : Span) (o : Fam.Window.Obs) (sa smid sz : Text)
 
 include hwf hw1 hw2 in
-/-- `previous_position` inside a window that starts at column 0 (extra hypothesis `hcol`,
-see finding F13c). -/
-theorem C20_window_prev_partial (hcol : (canon m wa).col = 0)
+/-- `previous_position` at an aligned position inside any window (no restriction on the
+window's start column): the parent's answer if it lies inside the window, else `none`. -/
+theorem C20_window_prev
     (ho : Fam.Window.model m (wa ++ (pre' ++ suf') ++ wz)
       ⟨canon m wa, canon m (wa ++ (pre' ++ suf'))⟩ (canon m (wa ++ pre')) sub = .ok o) :
     o.prev = (Fam.Window.ofSpec
       (windowSpec m wa (pre' ++ suf') wz (wa ++ pre') (suf' ++ wz) sa smid sz)).prev := by
   rw [window_model_eq m wa (pre' ++ suf') wz hwf hw1 hw2] at ho
   injection ho with ho; subst ho
-  exact wfield_prev hcol hwf hw1
+  exact wfield_prev hwf hw1
 
 include hwf hw1 hw2 in
-/-- `previous_line_end_position` inside a window that starts at column 0 (extra hypothesis
-`hcol`, see finding F13c). -/
-theorem C20_window_prevLineEnd_partial (hcol : (canon m wa).col = 0)
+/-- `previous_line_end_position` at an aligned position inside any window: the parent's answer
+if it lies inside the window, else `none`. -/
+theorem C20_window_prevLineEnd
     (ho : Fam.Window.model m (wa ++ (pre' ++ suf') ++ wz)
       ⟨canon m wa, canon m (wa ++ (pre' ++ suf'))⟩ (canon m (wa ++ pre')) sub = .ok o) :
     o.prevLineEnd = (Fam.Window.ofSpec
       (windowSpec m wa (pre' ++ suf') wz (wa ++ pre') (suf' ++ wz) sa smid sz)).prevLineEnd := by
   rw [window_model_eq m wa (pre' ++ suf') wz hwf hw1 hw2] at ho
   injection ho with ho; subst ho
-  exact wfield_prevLineEnd hcol hwf hw1
+  exact wfield_prevLineEnd hwf hw1
+
+include hwf hw1 hw2 in
+/-- Corollary kept under its old name: the statement for windows starting at column 0 (all
+that held before the repair of F13c). -/
+theorem C20_window_prev_partial (_hcol : (canon m wa).col = 0)
+    (ho : Fam.Window.model m (wa ++ (pre' ++ suf') ++ wz)
+      ⟨canon m wa, canon m (wa ++ (pre' ++ suf'))⟩ (canon m (wa ++ pre')) sub = .ok o) :
+    o.prev = (Fam.Window.ofSpec
+      (windowSpec m wa (pre' ++ suf') wz (wa ++ pre') (suf' ++ wz) sa smid sz)).prev :=
+  C20_window_prev m wa pre' suf' wz hwf hw1 hw2 sub o sa smid sz ho
+
+include hwf hw1 hw2 in
+/-- Corollary kept under its old name (windows starting at column 0). -/
+theorem C20_window_prevLineEnd_partial (_hcol : (canon m wa).col = 0)
+    (ho : Fam.Window.model m (wa ++ (pre' ++ suf') ++ wz)
+      ⟨canon m wa, canon m (wa ++ (pre' ++ suf'))⟩ (canon m (wa ++ pre')) sub = .ok o) :
+    o.prevLineEnd = (Fam.Window.ofSpec
+      (windowSpec m wa (pre' ++ suf') wz (wa ++ pre') (suf' ++ wz) sa smid sz)).prevLineEnd :=
+  C20_window_prevLineEnd m wa pre' suf' wz hwf hw1 hw2 sub o sa smid sz ho
 
 end
 
-/-- The unrestricted statement for `previous_position` (no column hypothesis).  It does NOT
-hold for the model (nor for the real code): see `C20_window_prev_statement_false`. -/
+/-- At the window's start both answers are `none` (whatever the parent has before the
+window); this is also the instance `pre' = []` of the two theorems above. -/
+theorem C20_window_prev_at_start (m : Metrics) (_htab : 1 ≤ m.tab) (wa wmid : Text)
+    (hwf : Text.WF (wa ++ wmid)) :
+    Source.previousPosition ⟨wmid, m, canon m wa⟩ (canon m wa) = .ok none ∧
+      Source.previousLineEndPosition ⟨wmid, m, canon m wa⟩ (canon m wa) = .ok none := by
+  have hp := win_prev (m := m) (wa := wa) (pre' := []) (suf' := wmid) (by simpa using hwf)
+    (by simp)
+  simp only [List.nil_append, List.append_nil, lastUnit_nil, Option.map_none] at hp
+  have hls : Source.lineStartPosition ⟨wmid, m, canon m wa⟩ (canon m wa) = .ok (canon m wa) := by
+    have := win_lineStart (m := m) (wa := wa) (pre' := [])
+      (by simpa using (Text.WF_append.mp hwf).1) (by simp) wmid
+    simpa using this
+  refine ⟨hp, ?_⟩
+  unfold Source.previousLineEndPosition
+  simp only [hls, Res.ok_bind, hp]
+
+/-- The unrestricted statement for `previous_position` (no column hypothesis).  It was false
+before the repair of F13c (commit ef86ab4); it holds now: `C20_window_prev_statement_holds`. -/
 def C20_window_prev_statement : Prop :=
   ∀ (m : Metrics), 1 ≤ m.tab → ∀ (wa pre' suf' wz : Text),
     Text.WF (wa ++ (pre' ++ suf') ++ wz) →
@@ -190,53 +230,40 @@ def C20_window_prev_statement : Prop :=
     o.prev = (Fam.Window.ofSpec
       (windowSpec m wa (pre' ++ suf') wz (wa ++ pre') (suf' ++ wz) sa smid sz)).prev
 
-/-- Finding F13c, concretely: parent `a⇥` (LF, tab 4), window = bytes 1..2 (the tab), asked at
-the window's end.  The window's `previous_position` answers (1, line 0, column 0); the
-parent's answer — and the spec's — is (1, line 0, column 1). -/
-theorem C20_finding_F13c :
+/-- The unrestricted `previous_position` statement holds. -/
+theorem C20_window_prev_statement_holds : C20_window_prev_statement :=
+  fun m _ wa pre' suf' wz hwf hw1 hw2 _ sub o sa smid sz ho =>
+    C20_window_prev m wa pre' suf' wz hwf hw1 hw2 sub o sa smid sz ho
+
+/-- The former witness of finding F13c: parent `a⇥` (LF, tab 4), window = bytes 1..2 (the
+tab, starting at ⟨1, line 0, column 1⟩), asked at the window's end ⟨2, 0, 4⟩.  The window's
+`previous_position` now answers ⟨1, 0, 1⟩ — the parent's answer and the spec's (before the
+repair it answered column 0). -/
+theorem C20_former_F13c_witness :
     let m : Metrics := ⟨.lf, 4⟩
     let wa : Text := [⟨97, 1, 1⟩]
     let wmid : Text := [⟨9, 1, 0⟩]
     let w : Span := ⟨⟨1, 0, 1⟩, ⟨2, 0, 4⟩⟩
     w = ⟨canon m wa, canon m (wa ++ wmid)⟩ ∧
+    Source.previousPosition ⟨wmid, m, ⟨1, 0, 1⟩⟩ ⟨2, 0, 4⟩ = .ok (some ⟨1, 0, 1⟩) ∧
     (∃ o, Fam.Window.model m (wa ++ wmid ++ []) w ⟨2, 0, 4⟩ w = .ok o ∧
-      o.prev = .ok (some ⟨1, 0, 0⟩)) ∧
+      o.prev = .ok (some ⟨1, 0, 1⟩)) ∧
     (Fam.Window.ofSpec (windowSpec m wa wmid [] (wa ++ wmid) [] wa wmid [])).prev =
       .ok (some ⟨1, 0, 1⟩) := by
   have hc1 : canon ⟨.lf, 4⟩ [⟨97, 1, 1⟩] = ⟨1, 0, 1⟩ := by
     simp [canon, canonFrom, linesOf, breakAt, lbCodes, stripCodes, colWidth, bytes, Pos.zero]
   have hc2 : canon ⟨.lf, 4⟩ ([⟨97, 1, 1⟩] ++ [⟨9, 1, 0⟩]) = ⟨2, 0, 4⟩ := by
     simp [canon, canonFrom, linesOf, breakAt, lbCodes, stripCodes, colWidth, bytes, Pos.zero]
-  refine ⟨by rw [hc1, hc2], ?_, ?_⟩
+  refine ⟨by rw [hc1, hc2], former_F13c_prev, ?_, ?_⟩
   · have hwf : Text.WF ([⟨97, 1, 1⟩] ++ [⟨9, 1, 0⟩] ++ ([] : Text)) := by
       intro c hc; simp at hc; rcases hc with rfl | rfl <;> decide
     have := window_model_eq ⟨.lf, 4⟩ [⟨97, 1, 1⟩] [⟨9, 1, 0⟩] [] hwf (by decide) (by decide)
       ⟨2, 0, 4⟩ ⟨⟨1, 0, 1⟩, ⟨2, 0, 4⟩⟩
     rw [hc1, hc2] at this
-    exact ⟨_, this, finding_F13c_prev⟩
+    exact ⟨_, this, former_F13c_prev⟩
   · simp only [Fam.Window.ofSpec, windowSpec, navSpec, lastUnit]
     simp [breakBefore, lbCodes, stripCodes, keepIfIn]
     simp [canon, canonFrom, linesOf, breakAt, lbCodes, stripCodes, colWidth, bytes, Pos.zero]
-
-/-- Finding F13c refutes the unrestricted `previous_position` statement. -/
-theorem C20_window_prev_statement_false : ¬ C20_window_prev_statement := by
-  intro h
-  have hc1 : canon ⟨.lf, 4⟩ [⟨97, 1, 1⟩] = ⟨1, 0, 1⟩ := by
-    simp [canon, canonFrom, linesOf, breakAt, lbCodes, stripCodes, colWidth, bytes, Pos.zero]
-  have hc2 : canon ⟨.lf, 4⟩ ([⟨97, 1, 1⟩] ++ [⟨9, 1, 0⟩]) = ⟨2, 0, 4⟩ := by
-    simp [canon, canonFrom, linesOf, breakAt, lbCodes, stripCodes, colWidth, bytes, Pos.zero]
-  have hwf : Text.WF ([⟨97, 1, 1⟩] ++ ([⟨9, 1, 0⟩] ++ []) ++ ([] : Text)) := by
-    intro c hc; simp at hc; rcases hc with rfl | rfl <;> decide
-  have hm := window_model_eq ⟨.lf, 4⟩ [⟨97, 1, 1⟩] ([⟨9, 1, 0⟩] ++ []) [] hwf (by decide) (by decide)
-    (canon ⟨.lf, 4⟩ ([⟨97, 1, 1⟩] ++ [⟨9, 1, 0⟩])) ⟨Pos.zero, Pos.zero⟩
-  have := h ⟨.lf, 4⟩ (by decide) [⟨97, 1, 1⟩] [⟨9, 1, 0⟩] [] [] hwf (by decide) (by decide)
-    (by decide) ⟨Pos.zero, Pos.zero⟩ _ [⟨97, 1, 1⟩] [⟨9, 1, 0⟩] [] hm
-  have hspec := C20_finding_F13c.2.2
-  simp only [List.append_nil] at this hspec
-  rw [hspec] at this
-  simp only [winObs, hc1, hc2] at this
-  rw [finding_F13c_prev] at this
-  simp at this
 
 /-- Non-vacuity: CRLF parent `ab⏎cd`, window = `b⏎c` (starts mid-line at column 1), inner cut
 after the line ending: all hypotheses of the theorems above hold. -/
@@ -252,6 +279,69 @@ example :
   refine ⟨by decide, ?_, by decide, by decide, by decide, ?_⟩
   · intro c hc; simp at hc; rcases hc with rfl | rfl | rfl | rfl | rfl | rfl <;> decide
   · simp [canon, canonFrom, linesOf, breakAt, lbCodes, stripCodes, colWidth, bytes, Pos.zero]
+
+/-- Non-vacuity for `C20_window_prev` on the interesting kind of window: LF parent
+`a⇥b⇥c`, tab 4, window = `b⇥` starting mid-line after a tab (at ⟨2, line 0, column 4⟩), asked
+at its end ⟨4, 0, 8⟩.  The hypotheses hold, the window starts at a non-zero column, and the
+answer is the parent's ⟨3, 0, 5⟩ (measured from column 0 it would be column 1). -/
+example :
+    let m : Metrics := ⟨.lf, 4⟩
+    let wa : Text := [⟨97, 1, 1⟩, ⟨9, 1, 0⟩]
+    let pre' : Text := [⟨98, 1, 1⟩, ⟨9, 1, 0⟩]
+    let suf' : Text := []
+    let wz : Text := [⟨99, 1, 1⟩]
+    1 ≤ m.tab ∧ Text.WF (wa ++ (pre' ++ suf') ++ wz) ∧
+      aligned m wa (pre' ++ suf' ++ wz) = true ∧ aligned m (wa ++ (pre' ++ suf')) wz = true ∧
+      aligned m (wa ++ pre') (suf' ++ wz) = true ∧
+      canon m wa = ⟨2, 0, 4⟩ ∧ canon m (wa ++ pre') = ⟨4, 0, 8⟩ ∧
+      Source.previousPosition ⟨pre' ++ suf', m, canon m wa⟩ (canon m (wa ++ pre')) =
+        .ok (some ⟨3, 0, 5⟩) := by
+  have hwf : Text.WF ([⟨97, 1, 1⟩, ⟨9, 1, 0⟩] ++ ([⟨98, 1, 1⟩, ⟨9, 1, 0⟩] ++ []) ++
+      ([⟨99, 1, 1⟩] : Text)) := by
+    intro c hc; simp at hc; rcases hc with rfl | rfl | rfl | rfl | rfl <;> decide
+  have hc1 : canon ⟨.lf, 4⟩ [⟨97, 1, 1⟩, ⟨9, 1, 0⟩] = ⟨2, 0, 4⟩ := by
+    simp [canon, canonFrom, linesOf, breakAt, lbCodes, stripCodes, colWidth, bytes, Pos.zero]
+  have hc2 : canon ⟨.lf, 4⟩ ([⟨97, 1, 1⟩, ⟨9, 1, 0⟩] ++ [⟨98, 1, 1⟩, ⟨9, 1, 0⟩]) = ⟨4, 0, 8⟩ := by
+    simp [canon, canonFrom, linesOf, breakAt, lbCodes, stripCodes, colWidth, bytes, Pos.zero]
+  have hc3 : canon ⟨.lf, 4⟩ ([⟨97, 1, 1⟩, ⟨9, 1, 0⟩] ++ [⟨98, 1, 1⟩]) = ⟨3, 0, 5⟩ := by
+    simp [canon, canonFrom, linesOf, breakAt, lbCodes, stripCodes, colWidth, bytes, Pos.zero]
+  refine ⟨by decide, hwf, by decide, by decide, by decide, hc1, hc2, ?_⟩
+  have := win_prev (m := ⟨.lf, 4⟩) (wa := [⟨97, 1, 1⟩, ⟨9, 1, 0⟩])
+    (pre' := [⟨98, 1, 1⟩, ⟨9, 1, 0⟩]) (suf' := [])
+    (by simpa using (Text.WF_append.mp hwf).1) (by decide)
+  rw [this]
+  simp [lastUnit, breakBefore, lbCodes, stripCodes]
+  simpa using hc3
+
+/-- Non-vacuity for `C20_window_prevLineEnd` on the same kind of window: LF parent
+`a⇥b⏎c`, tab 4, window = `b⏎c` starting mid-line after a tab, asked at its end ⟨5, 1, 1⟩: the
+answer is the end of the window's first line at the parent's column, ⟨3, 0, 5⟩. -/
+example :
+    let m : Metrics := ⟨.lf, 4⟩
+    let wa : Text := [⟨97, 1, 1⟩, ⟨9, 1, 0⟩]
+    let pre' : Text := [⟨98, 1, 1⟩, ⟨10, 1, 0⟩, ⟨99, 1, 1⟩]
+    let suf' : Text := []
+    let wz : Text := []
+    1 ≤ m.tab ∧ Text.WF (wa ++ (pre' ++ suf') ++ wz) ∧
+      aligned m wa (pre' ++ suf' ++ wz) = true ∧ aligned m (wa ++ (pre' ++ suf')) wz = true ∧
+      aligned m (wa ++ pre') (suf' ++ wz) = true ∧
+      canon m wa = ⟨2, 0, 4⟩ ∧ canon m (wa ++ pre') = ⟨5, 1, 1⟩ ∧
+      Source.previousLineEndPosition ⟨pre' ++ suf', m, canon m wa⟩ (canon m (wa ++ pre')) =
+        .ok (some ⟨3, 0, 5⟩) := by
+  have hwf : Text.WF ([⟨97, 1, 1⟩, ⟨9, 1, 0⟩] ++ ([⟨98, 1, 1⟩, ⟨10, 1, 0⟩, ⟨99, 1, 1⟩] ++ []) ++
+      ([] : Text)) := by
+    intro c hc; simp at hc; rcases hc with rfl | rfl | rfl | rfl | rfl <;> decide
+  have hc1 : canon ⟨.lf, 4⟩ [⟨97, 1, 1⟩, ⟨9, 1, 0⟩] = ⟨2, 0, 4⟩ := by
+    simp [canon, canonFrom, linesOf, breakAt, lbCodes, stripCodes, colWidth, bytes, Pos.zero]
+  have hc2 : canon ⟨.lf, 4⟩ ([⟨97, 1, 1⟩, ⟨9, 1, 0⟩] ++ [⟨98, 1, 1⟩, ⟨10, 1, 0⟩, ⟨99, 1, 1⟩]) =
+      ⟨5, 1, 1⟩ := by
+    simp [canon, canonFrom, linesOf, breakAt, lbCodes, stripCodes, colWidth, bytes, Pos.zero]
+  refine ⟨by decide, hwf, by decide, by decide, by decide, hc1, hc2, ?_⟩
+  have := wfield_prevLineEnd (m := ⟨.lf, 4⟩) (wa := [⟨97, 1, 1⟩, ⟨9, 1, 0⟩])
+    (pre' := [⟨98, 1, 1⟩, ⟨10, 1, 0⟩, ⟨99, 1, 1⟩]) (suf' := []) (wz := []) hwf (by decide)
+  rw [this]
+  simp [navSpec, keepIfIn, curLinePre, lbLen]
+  simp [canon, canonFrom, linesOf, breakAt, lbCodes, stripCodes, colWidth, bytes, Pos.zero]
 
 /-- Owned / borrowed round trip: a source text is determined by its text, metrics and start
 offset, so every window answer is the same for two sources agreeing on these three. -/
